@@ -244,6 +244,25 @@ static htp_status_t htp_gzip_decompressor_decompress_ex(htp_decompressor_t *drec
             free(joined);
             if ((rcj != HTP_OK) || (d->data != NULL)) return rcj;
             // What is left of d is the end of the body (or a gap).
+
+            if ((d->len == 0) && (!drec->super.passthrough) && (drec->stream.total_out == 0) &&
+                    ((drec->zlib_initialized == HTP_COMPRESSION_GZIP) || (drec->zlib_initialized == HTP_COMPRESSION_DEFLATE))) {
+                // The whole body was those few bytes and they gave no output. Unless
+                // they were a complete (empty) stream, inflate is still waiting for the
+                // beginning of one: the body is not compressed, pass it through.
+                drec->stream.next_in = drec->header;
+                drec->stream.avail_in = 0;
+                if (inflate(&drec->stream, Z_NO_FLUSH) != Z_STREAM_END) {
+                    htp_tx_data_t dr;
+                    dr.tx = d->tx;
+                    dr.data = drec->header;
+                    dr.len = kept;
+                    dr.is_last = 0;
+                    drec->super.passthrough = 1;
+                    callback_rc = drec->super.callback(&dr);
+                    if (callback_rc != HTP_OK) return HTP_ERROR;
+                }
+            }
         }
     }
 
